@@ -693,3 +693,90 @@ Proof.
       * rew_loop Hl2. cbv beta iota. sym'. reflexivity.
   - destruct HL as (acc' & res' & r' & HL). rew_loop HL. rewrite (split_filtered_err_code _ _ _ _ Es). reflexivity.
 Qed.
+
+(* ------------------------------------------------------------------ C06, stated of the regenerated source *)
+Notation src := (run policy_gen).
+
+Theorem src_has_policy sp pi tk l r :
+  src (mkE sp pi tk) FUEL m_has_policy l [PL r] = (Ok (PB (has_policy l r)), l).
+Proof. apply tie_has_policy. Qed.
+
+Theorem src_add_is_set_add sp pi tk l r : prio_of sp pi = None ->
+  src (mkE sp pi tk) FUEL m_add_policy l [PL r] =
+  if has_policy l r then (Ok (PB false), l) else (Ok (PB true), l ++ [r]).
+Proof.
+  intro H. rewrite (tie_add_policy_noprio _ _ _ _ _ H), add_policy_spec. unfold spec_add.
+  destruct (has_policy l r); reflexivity.
+Qed.
+
+Theorem src_remove_is_set_remove sp pi tk l r : NoDup l ->
+  src (mkE sp pi tk) FUEL m_remove_policy l [PL r] =
+  if has_policy l r then (Ok (PB true), filter (neqb r) l) else (Ok (PB false), l).
+Proof.
+  intro H. rewrite tie_remove_policy, (remove_policy_spec _ _ H). unfold spec_remove.
+  destruct (has_policy l r); reflexivity.
+Qed.
+
+Theorem src_batch_add_all_or_nothing sp pi tk l rs : prio_of sp pi = None ->
+  src (mkE sp pi tk) FUEL m_add_policies l [PLL rs] =
+  if forallb (fun r => negb (has_policy l r)) rs && nodupb rule_eqb rs
+  then (Ok (PB true), l ++ rs) else (Ok (PB false), l).
+Proof.
+  intro H. rewrite (tie_add_policies_noprio _ _ _ _ _ H), add_policies_spec. unfold spec_add_batch.
+  destruct (forallb (fun r => negb (has_policy l r)) rs && nodupb rule_eqb rs); reflexivity.
+Qed.
+
+Theorem src_batch_remove_all_or_nothing sp pi tk l rs : NoDup l ->
+  src (mkE sp pi tk) FUEL m_remove_policies l [PLL rs] =
+  if forallb (has_policy l) rs && nodupb rule_eqb rs
+  then (Ok (PB true), filter (notin rs) l) else (Ok (PB false), l).
+Proof.
+  intro H. rewrite tie_remove_policies, (remove_policies_spec _ _ H). unfold spec_remove_batch.
+  destruct (forallb (has_policy l) rs && nodupb rule_eqb rs); reflexivity.
+Qed.
+
+Theorem src_update_in_place sp pi l old new : NoDup l ->
+  src (mkE sp pi None) FUEL m_update_policy l [PL old; PL new] =
+  if has_policy l old && negb (has_policy l new)
+  then (Ok (PB true), replace_rule old new l) else (Ok (PB false), l).
+Proof.
+  intro H. rewrite tie_update_policy, (update_policy_spec _ _ _ H). unfold spec_update. cbn [res_pair].
+  destruct (has_policy l old && negb (has_policy l new)); reflexivity.
+Qed.
+
+Theorem src_update_refuses_priority_change sp pi k l old new a b :
+  has_policy l old = true -> has_policy l new = false ->
+  nth_error old k = Some a -> nth_error new k = Some b -> a <> b ->
+  src (mkE sp pi (Some k)) FUEL m_update_policy l [PL old; PL new] = (Err EPriorityMismatch, l).
+Proof.
+  intros Ho Hn Ha Hb Hab. rewrite tie_update_policy. unfold update_policy, field. unfold has_policy in *.
+  destruct (index_of rule_eqb old l) as [i|] eqn:Ei; [|exfalso; eapply mem_index_of; eassumption].
+  rewrite Hn, Ha, Hb. apply N.eqb_neq in Hab. rewrite Hab. reflexivity.
+Qed.
+
+Theorem src_filtered_remove_exact sp pi tk l fi vs kept gone :
+  split_filtered l fi vs = Ok (kept, gone) ->
+  src (mkE sp pi tk) FUEL m_remove_filtered_policy l [PI (Z.of_nat fi); PL vs] =
+    (Ok (PB (negb (is_nil gone))), kept) /\
+  gone = filter (fm_true fi vs) l /\ kept = filter (fun r => negb (fm_true fi vs r)) l.
+Proof.
+  intro H. split; [|apply split_filtered_spec; exact H].
+  rewrite tie_remove_filtered_policy. unfold remove_filtered. rewrite H. destruct gone; reflexivity.
+Qed.
+
+(* an IndexError of the filter leaves the store untouched *)
+Theorem src_filtered_remove_error_changes_nothing sp pi tk l fi vs c :
+  split_filtered l fi vs = Err c ->
+  src (mkE sp pi tk) FUEL m_remove_filtered_policy l [PI (Z.of_nat fi); PL vs] = (Err EIndex, l).
+Proof.
+  intro H. rewrite tie_remove_filtered_policy. unfold remove_filtered. rewrite H.
+  rewrite (split_filtered_err_code _ _ _ _ H). reflexivity.
+Qed.
+
+Example src_example :
+  src (mkE true (-1)%Z None) FUEL m_add_policies [[1000; 1001; 1002]] [PLL [[1003; 1001; 1002]; [1000; 1004; 1002]]] =
+    (Ok (PB true), [[1000; 1001; 1002]; [1003; 1001; 1002]; [1000; 1004; 1002]]) /\
+  src (mkE true (-1)%Z None) FUEL m_remove_filtered_policy
+    [[1000; 1001; 1002]; [1003; 1001; 1002]; [1000; 1004; 1002]] [PI 1%Z; PL [1001]] =
+    (Ok (PB true), [[1000; 1004; 1002]]).
+Proof. split; vm_compute; reflexivity. Qed.
